@@ -499,6 +499,16 @@ fn main() {
                 rep.violations.extend(st.violations);
                 rep.add_part(st.part);
             }
+            {
+                // one side streams until the other side's single byte arrives; that byte is lost
+                // once or twice while the stream (every segment an ACK) keeps flowing
+                let mut d = vx_core::DfsConfig::new("fixed-latency-grid-stream-until-stop", 0);
+                d.wall = wall;
+                let thorough = tier == Tier::Thorough;
+                let st = vx_core::explore_dfs(&d, move |ch| fixedlat::stream_until_stop_scenario(ch, thorough));
+                rep.violations.extend(st.violations);
+                rep.add_part(st.part);
+            }
             rep.finish();
         }
         "C16" => {
@@ -748,6 +758,19 @@ fn replay(path: &str) {
                 for a in &v.actions {
                     println!("  {a}");
                 }
+                println!("VIOLATION clause={} : {}", v.clause, v.detail);
+                std::process::exit(1);
+            }
+            None => println!("no violation on this execution"),
+        }
+        return;
+    }
+    if prop == "C06" && scenario.starts_with("c06-stream-until-stop") {
+        println!("replaying {prop}: {scenario}");
+        let mut ch = vx_core::Chooser::from_choices(&choices);
+        let e = fixedlat::stream_until_stop_scenario(&mut ch, false);
+        match e.violation {
+            Some(v) => {
                 println!("VIOLATION clause={} : {}", v.clause, v.detail);
                 std::process::exit(1);
             }
